@@ -29,10 +29,6 @@ theorem foldl_go_cons {σ : Type} (step : σ → ScopeEdge → σ) (pre : Path) 
       (scopeTraverse.go pre (i + 1) ks).foldl step ((scopeTraverse (pre ++ [i]) k).foldl step st) := by
   simp [scopeTraverse.go, List.foldl_append]
 
-theorem isNamespaceKnown_top' (s : FStack) (ns : Nat) :
-    s.isNamespaceKnown ns = FStack.isNamespaceKnown [s.top] ns := by
-  simp [FStack.isNamespaceKnown, FStack.top]
-
 /-- The top frame after `push`. -/
 def pushTop (top decls : List (Nat × Nat)) : List (Nat × Nat) :=
   if decls.isEmpty then top else fullnameInfoNew decls top
